@@ -7,7 +7,7 @@ from ..impl_dtcwt import IMPL
 
 PROP = 'C04'
 MODULE = 'WaveletsVerif.Properties.C04'
-THEOREMS = ['WV.C04.c2q_q2c', 'WV.C04.extendEven_topleft']
+THEOREMS = ['WV.C04.c2q_q2c', 'WV.C04.extendEven_length']
 OPS = ['fwd_j1', 'inv_j1', 'fwd_j2plus', 'inv_j2plus', 'q2c', 'c2q', 'DTCWTForward', 'DTCWTInverse']
 
 
